@@ -112,7 +112,7 @@ class G:
             prods = [(2, self.p_leaf), (1, self.p_if), (1, self.p_missing)]
         elif k[0] == "list":
             prods = [(3, self.p_listlit), (4, self.p_for), (4, self.p_filter), (2, self.p_listpath), (1, self.p_if), (1, self.p_leaf),
-                     (1, self.p_call)]
+                     (1, self.p_call), (1, self.p_arity_shadow)]
         elif k[0] == "ctx":
             prods = [(4, self.p_ctxlit), (1, self.p_if), (2, self.p_index), (1, self.p_leaf)]
         elif k[0] == "fn":
@@ -338,6 +338,18 @@ class G:
     def p_strlen(self, k, d, env):
         return ["call", ["name", "string length"], [self.expr(STR, d - 1, env)]]
 
+    def p_arity_shadow(self, k, d, env):
+        """[f(e), X] where f = function(X, q) X + q is called with too few arguments and X is also a name of the enclosing scope:
+        the failed invocation is null and X afterwards still denotes the enclosing value"""
+        names = [n for n, kk in env.items() if kk == k[1] and n not in KEYS and n not in ("item", "partial")]
+        if not names or k[1] not in (NUM, STR):
+            return self.p_listlit(k, d, env)
+        x = self.src.choice(names)
+        callee = ["fn", [[x, None], ["q", None]], ["arith", "+", ["name", x], ["name", "q"]]]
+        call = ["call", callee, [self.expr(k[1], d - 1, env)]]
+        tail = ["name", x] if self.src.bool(0.6) else ["arith", "+", ["name", x], ["name", x]]
+        return ["list", [call, tail]]
+
     def p_closure(self, k, d, env):
         """{k: function(p) function(q) p + q, m: k(e1), g: m(e2)}.g  -- the inner function captures p lexically"""
         inner = ["fn", [["q", None]], ["arith", self.src.choice(["+", "-", "*"]), ["name", "p"], ["name", "q"]]]
@@ -376,6 +388,9 @@ class G:
             fk = ("fn", pk, k)
             f = self.fn_literal(fk, env, d - 1)
         args = [self.expr(a, d - 1, env) for a in fk[1]]
+        if fk[1] and s.bool(0.08):
+            # too few arguments: the invocation is an error (null) and must leave everything around it untouched
+            return ["call", f, args[:s.int(0, len(args) - 1)]]
         if fk[1] and s.bool(0.3):
             pnames = PARAMS[:len(fk[1])]
             pairs = [[n, a] for n, a in zip(pnames, args)]
